@@ -19,6 +19,9 @@ CHECKS["C11"] = ("exploration", "bounded-exhaustive string enumeration through e
 CHECKS["C13"] = ("exploration", "generated-text enumeration (all member orders / spellings within bounds) against an independent RFC 8785 serializer",
   "Objects over every subset of <=K names from a menu built to separate UTF-16 from UTF-8 order, in every member order x whitespace styles x name respellings; ~4000 decimal values x 9 spellings; code points x every escape spelling; all trees of <=N nodes. Canonicalize output must equal the reference RFC 8785 serialization (hence identical across each respelling class), denote the same value and be a fixed point.",
   "Trusted: reference serializer (unicode/utf16 for the sort key, strconv shortest digits + own ES6 layout).", "2/C13")
+CHECKS["C05"] = ("fault_enumeration", "environment-answer exploration: exhaustive reader schedules (cut sets, empty reads, data+EOF, single transient faults) x call-program interleavings on the real Decoder, compared with whole-input decoding and a reference decoder model",
+  "The harness owns the io.Reader. For every interesting document (valid, viable or first-error) of two alphabet views, every ReadToken/ReadValue/SkipValue/PeekKind program (exhaustive up to a length, deviation-bounded beyond) is run on the whole input and checked against the reference decoder model, then re-run under every reader schedule of the class (all 2^(n-1) cut sets for short inputs; <=2 cuts + one-byte reader otherwise; x empty reads x data-with-EOF) comparing every observable after every call plus the invariant bytes-taken == InputOffset ++ UnreadBuffer; a transient fault before every Read call with retry; sweeps of critical tokens across every offset around the 64..8192 buffer sizes under three growth histories; UnmarshalRead/UnmarshalDecode vs Unmarshal.",
+  "Trusted: reference decoder model; a *bytes.Buffer source counts as 'the whole byte slice'. Error message text is not compared (documented as unstable).", "2/C05")
 NOT_YET = {}
 def main():
     props=[json.loads(l)["id"] for l in open("properties.jsonl")]
